@@ -1,4 +1,4 @@
 SPECIFICATION Spec
-CONSTANTS NSet = {100, 500, 5000}  CSet = {2, 5}  Kinds = {"default", "user"}  Reps = {1}  SharedKw = FALSE  KFixAll = TRUE  Dev = "logasscale"
+CONSTANTS NSet = {100, 500, 5000}  CSet = {2, 5}  Kinds = {"default", "user", "far"}  Reps = {1}  SharedKw = FALSE  KFixAll = TRUE  Dev = "logasscale"
 CHECK_DEADLOCK FALSE
 INVARIANT ScaleEquivariant
